@@ -29,7 +29,8 @@ RULE = ("configuration = (hops 1..3) x (teardown by originator / relay / exit / 
         "mid-transfer). For each configuration a fault-free profile run lists the control datagrams (link, kind, k-th); the case "
         "stream then contains EVERY subset of <= 2 (quick) / <= 3 (thorough) of them as a drop set, followed by a seeded stream "
         "adding duplication, reordering, crashes of relays/exits, clock jumps, join-limit pressure (max_joined_circuits 1..3) "
-        "and a greedy originator that keeps setting relay_early. Non-trivial = at least one control datagram was actually "
+        "and a greedy originator that keeps setting relay_early; plus the 'first_packet' phase (the circuit's first data packet "
+        "chased by the teardown after 0 .. 50 ms, remove_tunnel_delay 0 or 5 s, 1-3 loop iterations per socket opening). Non-trivial = at least one control datagram was actually "
         "dropped or a node crashed; distinct by (configuration, drop set).")
 COMPONENTS = {"real": ["TunnelCommunity do_circuits/do_remove/do_ping timers, remove_* delayed tasks, on_destroy, retry caches",
                        "PythonCryptoEndpoint relay_early accounting", "TunnelExitSocket with simulated outside transports",
